@@ -62,27 +62,34 @@ def cls : Outcome α → String
   | .err _ => "e"
   | .panic _ => "p"
 
+/-- five reader kinds per `k` on the Go side; the model knows a source only through `ReadAt`, so
+its verdict is the same for all of them -/
+def five (s : String) : String := s ++ s ++ s ++ s ++ s
+
 @[noinline] def runRead (mode : String) (hdr : Bytes) (len : Nat) (ks : List Nat) : String :=
   "".intercalate (ks.map fun k =>
-    if mode == "trunc" then cls (readR Gen.headerMaxTables (virtReader (hdr.take k) (min k len)))
+    if mode == "trunc" then five (cls (readR Gen.headerMaxTables (virtReader (hdr.take k) (min k len))))
     else
       let v := virtReader hdr len
-      cls (readR Gen.headerMaxTables (fun off n => if off + n > k then .fault else v off n)))
+      five (cls (readR Gen.headerMaxTables (fun off n => if off + n > k then .fault else v off n))))
 
 /-- expected verdicts of the property for a file cut at `k`: every `k` below the end of the last
-table must be rejected (`E`) by the seekable reader and by the two streams ending with EOF at `k`;
-nothing is demanded for cuts in the padding after the last table (`-`) -/
+table must be rejected (`E`) by the seekable reader, by the two streams ending with EOF at `k`,
+and by the four further reader kinds (Size() reporting the declared length, io.SectionReader with
+the declared length over the short base, ReaderAt+Seek, file-like) — the model of `header.Read`
+consults nothing but `ReadAt`; nothing is demanded for cuts in the padding after the last table -/
 @[noinline] def runExpectTrunc (lastEnd : Nat) (ks : List Nat) : String :=
-  "".intercalate (ks.map fun k => if k < lastEnd then "EEE" else "---")
+  "".intercalate (ks.map fun k => if k < lastEnd then "EEEEEEE" else "-------")
 
-/-- expected verdicts for sources failing at `k` (a ReaderAt, four kinds of streams): the ReaderAt
-must be rejected when `k` lies before the end of the last table (later offsets are never accessed);
-a stream is read to its end, so one that reports a non-EOF error before the end of the file
-(`k < len`) must be rejected — the model: `readAll f (some k) = err` for `k < |f|` -/
+/-- expected verdicts for sources failing at `k` (a ReaderAt, four kinds of streams, four further
+ReaderAt kinds): a ReaderAt of any kind must be rejected when `k` lies before the end of the last
+table (later offsets are never accessed); a stream is read to its end, so one that reports a
+non-EOF error before the end of the file (`k < len`) must be rejected — the model:
+`readAll f (some k) = err` for `k < |f|` -/
 @[noinline] def runExpectReader (lastEnd len : Nat) (ks : List Nat) : String :=
   "".intercalate (ks.map fun k =>
-    if len ≤ k then "-----"
-    else (if k < lastEnd then "E" else "-") ++ "EEEE")
+    if len ≤ k then "---------"
+    else (if k < lastEnd then "E" else "-") ++ "EEEE" ++ (if k < lastEnd then "EEEE" else "----"))
 
 /-! ### parser level -/
 
